@@ -421,6 +421,101 @@ func TestP1Eexec(t *testing.T) {
 	rec.Note(fmt.Sprintf("(cipher state, cipher byte) pairs driven through the decryptor by this shard: %d of 16777216", pairsCovered()))
 }
 
+// ---------------------------------------------------------------------------
+// sections whose plaintext ends early: stop, or an error, before closefile
+
+type earlyCase struct {
+	Pre    []byte `json:"pre"`
+	Plain  []byte `json:"plain"` // plaintext up to and including the token that ends the run
+	After  []byte `json:"after"` // further plaintext that is never executed
+	Binary bool   `json:"binary"`
+	Cipher []byte `json:"cipher"` // the section as laid out in the file
+}
+
+// stateAndError renders the interpreter state also when the run ends with an
+// error.
+func stateAndError(text []byte) (string, string) {
+	intp := postscript.NewInterpreter()
+	intp.MaxOps = 5_000_000
+	err := intp.Execute(bytes.NewReader(text))
+	return pscanon.StateWithSystem(intp), pscanon.ErrorName(err)
+}
+
+func checkEarly(c *earlyCase) string {
+	a := append(append(append([]byte{}, c.Pre...), "currentfile eexec\n"...), c.Cipher...)
+	b := append(append(append([]byte{}, c.Pre...), "systemdict begin "...), c.Plain...)
+	sa, ea := stateAndError(a)
+	sb, eb := stateAndError(b)
+	if ea != eb {
+		return fmt.Sprintf("a section whose plaintext ends early: the encrypted form ends with %q, the plaintext with the system dictionary pushed ends with %q\nplaintext: %q", ea, eb, clip(c.Plain))
+	}
+	if sa != sb {
+		la, lb := strings.Split(sa, "\n"), strings.Split(sb, "\n")
+		for i := range la {
+			if i >= len(lb) || la[i] != lb[i] {
+				other := ""
+				if i < len(lb) {
+					other = lb[i]
+				}
+				return fmt.Sprintf("a section whose plaintext ends early (%q): the state after the encrypted form differs from the state after the plaintext with the system dictionary pushed\n encrypted: %s\n plaintext: %s\nplaintext program: %q", ea, clipS(la[i]), clipS(other), clip(c.Plain))
+			}
+		}
+		return "states differ in length"
+	}
+	return ""
+}
+
+func TestP2Early(t *testing.T) {
+	rec := ev.New("C05", "early")
+	defer rec.Finish(t)
+	rec.Rule("sections whose plaintext does not reach closefile: after the probes, 0-3 `n dict begin` and a data program of the C02 generator the plaintext executes stop, an undefined name, a typecheck or a rangecheck (further plaintext follows and is never run); hex or binary layout with drawn prefix bytes. Oracle: the same interpreter fed `pre systemdict begin <plaintext>` ends with the same error name (none for stop) and in the same canonical state - operand stack, dictionary stack (the system dictionary and every dictionary the plaintext began are still on it), userdict, additions to systemdict. Non-trivial: always; distinct by file bytes.")
+	cfg := psgen.Config{TypeLiteral: true}
+	ev.SetupRapid(6000, 200000)
+	rapid.Check(t, func(t *rapid.T) {
+		c := &earlyCase{}
+		if rapid.Bool().Draw(t, "pre") {
+			c.Pre = []byte("/before (x) def 3 dict begin /inner 7 def\n")
+		}
+		var plain bytes.Buffer
+		plain.WriteString("/eexecprobe 42 def currentdict /add known\n")
+		for i := rapid.IntRange(0, 3).Draw(t, "begins"); i > 0; i-- {
+			fmt.Fprintf(&plain, "%d dict begin /left%d 1 def\n", i+1, i)
+		}
+		prog, _, wantErr := psgen.Adaptive(t, cfg, 12)
+		if wantErr == "" {
+			plain.WriteString(psgen.Spell(prog))
+			plain.WriteString("\n")
+		}
+		ender := rapid.SampledFrom([]string{"stop", "nosuchname", "1 (x) mul", "(abc) 7 get", "{ stop } exec", "3 { 1 (x) mul } repeat", "/nosuch load"}).Draw(t, "ender")
+		plain.WriteString(ender)
+		c.Plain = append([]byte{}, plain.Bytes()...)
+		c.After = []byte("\n/notreached 1 def end end mark currentfile closefile\n")
+		c.Binary = rapid.Bool().Draw(t, "binary")
+		var c4 [4]byte
+		for i := range c4 {
+			c4[i] = byte(rapid.IntRange(0, 255).Draw(t, "c4"))
+		}
+		if c.Binary {
+			c4[0] |= 0x80 // not white space, not a hex digit
+		}
+		enc := encrypt(append(append([]byte{}, c.Plain...), c.After...), c4)
+		if c.Binary {
+			c.Cipher = enc
+		} else {
+			c.Cipher = []byte(fmt.Sprintf("%x\n", enc))
+		}
+		rec.Eval(1)
+		rec.Class("ender:" + ender)
+		rec.NonTrivial(string(c.Pre) + "\x00" + string(c.Cipher))
+		if rec.WantSample() {
+			rec.Sample(map[string]any{"plaintext": string(clip(c.Plain)), "binary": c.Binary})
+		}
+		if msg := ev.Safe(func() string { return checkEarly(c) }); msg != "" {
+			rec.Fail(t, msg, map[string]any{"early": c})
+		}
+	})
+}
+
 func TestReplay(t *testing.T) {
 	rc, err := ev.LoadReplay()
 	if err != nil {
@@ -428,6 +523,15 @@ func TestReplay(t *testing.T) {
 	}
 	if rc == nil {
 		t.Skip("no VERIF_REPLAY")
+	}
+	var wrapped struct {
+		Early *earlyCase `json:"early"`
+	}
+	if json.Unmarshal(rc.Case, &wrapped) == nil && wrapped.Early != nil {
+		if msg := ev.Safe(func() string { return checkEarly(wrapped.Early) }); msg != "" {
+			t.Fatalf("%s", msg)
+		}
+		return
 	}
 	var c c05case
 	if err := json.Unmarshal(rc.Case, &c); err != nil {
